@@ -92,12 +92,12 @@ theorem C03_only_common (g : Gram) (hwf : WF g) (t : PT) :
   exact ⟨((C03_kinds g hwf).2 r).1.mp hc, hc⟩
 
 /-- **Match rules yield plain values**: the node of a match rule, and a
-terminal, give a primitive (its text), never an object. -/
+terminal, give a primitive (the text of the converted value(s)), never an object. -/
 theorem C03_match_plain (k : Kinds) (r : Nat) (kids : List PT) (hk : k r = .mtch) :
-    proc k (.nt r kids) = .prim (flatL kids) ∧ ∀ t, proc k (.term t) = .prim t := by
+    proc k (.nt r kids) = .prim (flatL kids) ∧ ∀ t v, proc k (.term t v) = .prim v := by
   constructor
   · simp [proc, hk]
-  · intro t; simp [proc]
+  · intro t v; simp [proc]
 
 /-- **Abstract rule, first non-match reference.**  If some child of an abstract
 rule's node is the node of a common or abstract rule, the result is the result
@@ -106,11 +106,21 @@ theorem C03_result_first_nonmatch (k : Kinds) (r : Nat) (kids : List PT) (x : PT
     (hx : kids.find? (PT.isNM k) = some x) : proc k (.nt r kids) = proc k x :=
   proc_abstr_nm k r kids x hk hx
 
-/-- **Abstract rule, only simple matches**: the concatenated text. -/
+/-- **Abstract rule, only simple matches**: the concatenated text of the
+alternative (the matched text, whatever the base types would convert it to:
+`'#k' BOOL` on `#k false` gives `'#kfalse'`). -/
 theorem C03_result_concat_terminals (k : Kinds) (r : Nat) (kids : List PT) (hk : k r = .abstr)
-    (hne : kids ≠ []) (hall : ∀ x ∈ kids, ∃ t, x = .term t) :
-    proc k (.nt r kids) = .prim (flatL kids) :=
-  proc_abstr_terms k r kids hk hne hall
+    (hlen : 2 ≤ kids.length) (hall : ∀ x ∈ kids, ∃ t v, x = .term t v) :
+    proc k (.nt r kids) = .prim (rawL kids) :=
+  proc_abstr_terms k r kids hk hlen hall
+
+/-- **Abstract rule, a single reference matched**: the result is that
+reference's result whatever it is — an object, or the plain value of a match
+rule / base type (`Value: INT | BOOL | STRING | Obj;` on `0`, `false`, `''`
+gives the values whose texts are `0`, `False` and the empty string). -/
+theorem C03_result_single_child (k : Kinds) (r : Nat) (x : PT) (hk : k r = .abstr) :
+    proc k (.nt r [x]) = proc k x :=
+  proc_abstr_single k r x hk
 
 /-- **Abstract rule, only match rules, partial.**  What is missing for "the
 concatenated text whenever the alternative has only match rules": when one of
@@ -128,13 +138,13 @@ def kfKinds : Kinds := fun r => if r = 0 then .abstr else .mtch
 Prefix: '#' '#';` on `# # 5` gives `'##'`, not `'##5'`. -/
 theorem C03_result_all_match_full_false :
     ∃ (k : Kinds) (r : Nat) (kids : List PT), k r = .abstr ∧ kids.find? (PT.isNM k) = none ∧
-      proc k (.nt r kids) ≠ .prim (flatL kids) := by
-  refine ⟨kfKinds, 0, [.nt 1 [.term "#", .term "#"], .term "5"], rfl, rfl, ?_⟩
+      proc k (.nt r kids) ≠ .prim (rawL kids) := by
+  refine ⟨kfKinds, 0, [.nt 1 [.term "#" "#", .term "#" "#"], .term "5" "5"], rfl, rfl, ?_⟩
   intro h
-  have h1 : proc kfKinds (.nt 0 [.nt 1 [.term "#", .term "#"], .term "5"]) = .prim "##" := by
+  have h1 : proc kfKinds (.nt 0 [.nt 1 [.term "#" "#", .term "#" "#"], .term "5" "5"]) = .prim "##" := by
     simp [proc, procFirst, kfKinds, PT.isNM, PT.isNT, flatL, PT.flat]
   rw [h1] at h
-  simp [flatL, PT.flat] at h
+  simp [rawL, PT.raw] at h
 
 /-! ## the pinned behaviour violated the property (negation witnesses) -/
 
@@ -190,7 +200,7 @@ theorem C03_pinned_result_false :
     ∃ (k : Kinds) (kids : List PT) (x : PT), kids.find? (PT.isNM k) = some x ∧
       (proc k x).objRules = [2] ∧ (procAbsPinned k kids).objRules = [] :=
   ⟨fun r => if r = 0 then .abstr else if r = 1 then .mtch else .common,
-   [.nt 1 [.term "#", .term "#"], .nt 2 [.asgn "a" [.term "5"]]], .nt 2 [.asgn "a" [.term "5"]],
+   [.nt 1 [.term "#" "#", .term "#" "#"], .nt 2 [.asgn "a" [.term "5" "5"]]], .nt 2 [.asgn "a" [.term "5" "5"]],
    rfl, by decide, by decide⟩
 
 /-! ## non-vacuity -/
@@ -206,7 +216,21 @@ example : isInstance cycGram (kindsOf cycGram) 2 (.rule 1) = true ∧
 example : WF cycGram ∧ ∀ rule ∈ cycGram, rule.body.documented = true := by decide
 
 /-- `C03_result_first_nonmatch` applies to `Prefix Rule1` -/
-example : ([PT.nt 1 [.term "#", .term "#"], .nt 2 [.asgn "a" [.term "5"]]]).find? (PT.isNM w4Kinds) =
-    some (.nt 2 [.asgn "a" [.term "5"]]) := rfl
+example : ([PT.nt 1 [.term "#" "#", .term "#" "#"], .nt 2 [.asgn "a" [.term "5" "5"]]]).find? (PT.isNM w4Kinds) =
+    some (.nt 2 [.asgn "a" [.term "5" "5"]]) := rfl
+
+/-- `Entry: Tag Value | Plain;  Tag: '@' ID ':';  Value: INT | BOOL | Obj;` on `@b: false`: the first
+non-match reference (`Value`) gives the value of `BOOL`, whose text is `False` — not the text of `Tag` -/
+example : proc (fun r => if r = 0 ∨ r = 2 then .abstr else .mtch)
+    (.nt 0 [.nt 1 [.term "@" "@", .term "b" "b", .term ":" ":"], .nt 2 [.term "false" "False"]]) = .prim "False" := by
+  simp [proc, procFirst, PT.isNM]
+
+/-- several simple matches: the matched text, unconverted -/
+example : proc (fun _ => .abstr) (.nt 0 [.term "#k" "#k", .term "false" "False"]) = .prim "#kfalse" := by
+  simp [proc, procFirst, PT.isNM, PT.isNT, rawL, PT.raw]
+
+/-- a multi-token match rule: the converted values, joined -/
+example : proc (fun _ => .mtch) (.nt 0 [.term "#k" "#k", .term "false" "False"]) = .prim "#kFalse" := by
+  simp [proc, flatL, PT.flat]
 
 end RuleTypes
